@@ -2251,3 +2251,245 @@ func ruleContainersInDeclaredOrderEvaluated(c *eng.Ctx) {
 		c.Check(bad == "", R, key, open.Pos(), fmt.Sprintf("%d parts in declared order, nothing undeclared", ck.n), "the parts of a container are not presented as declared: "+bad)
 	}
 }
+
+// ---------------------------------------------------------------------------------------------------------------
+// R16.20 vertical merges of the DOCX table parser, read on every small table.
+
+func fieldIndex(t types.Type, name string) int {
+	if st, ok := t.Underlying().(*types.Struct); ok {
+		for i := 0; i < st.NumFields(); i++ {
+			if st.Field(i).Name() == name {
+				return i
+			}
+		}
+	}
+	return -1
+}
+
+// R16.20 [C16]
+func ruleVerticalMergesByGridColumn(c *eng.Ctx) {
+	const R = "R16.20-VERTICAL-MERGES-BY-GRID-COLUMN"
+	c.Rule(R, "docx.(*TableParser).processVerticalMerges, evaluated on every table of two or three rows whose rows are compositions of a grid of up to four columns (column spans 1..3), on every table of two rows of up to five columns each (ragged tables included), and whose continuation cells each lie under a cell that starts at the same grid column with the same span: afterwards every cell that is not a continuation has RowSpan 1 plus the number of continuation cells directly beneath it in its grid column. Rows that cut the grid differently before the merged column have the merge start at different cell indexes, so a lookup by cell index credits the neighbour", 1, 0)
+	fn := c.P.Func("docx.(*TableParser).processVerticalMerges")
+	if fn == nil {
+		c.Ok(R, "docx.(*TableParser).processVerticalMerges", token.NoPos, "no such method: not evaluated")
+		return
+	}
+	name := eng.FuncName(fn)
+	tabIdx := -1
+	var tabT, rowT, cellT types.Type
+	for i, p := range fn.Params {
+		pt, ok := p.Type().Underlying().(*types.Pointer)
+		if !ok {
+			continue
+		}
+		ri := fieldIndex(pt.Elem(), "Rows")
+		if ri < 0 {
+			continue
+		}
+		rs, ok := pt.Elem().Underlying().(*types.Struct).Field(ri).Type().Underlying().(*types.Slice)
+		if !ok {
+			continue
+		}
+		ci := fieldIndex(rs.Elem(), "Cells")
+		if ci < 0 {
+			continue
+		}
+		cs, ok := rs.Elem().Underlying().(*types.Struct).Field(ci).Type().Underlying().(*types.Slice)
+		if !ok {
+			continue
+		}
+		tabIdx, tabT, rowT, cellT = i, pt.Elem(), rs.Elem(), cs.Elem()
+	}
+	if tabIdx < 0 || fieldIndex(cellT, "ColSpan") < 0 || fieldIndex(cellT, "RowSpan") < 0 || fieldIndex(cellT, "IsMergedContinuation") < 0 {
+		c.Ok(R, name, fn.Pos(), "the signature is not (table with Rows of Cells carrying ColSpan, RowSpan, IsMergedContinuation): not evaluated")
+		return
+	}
+	rowsF, cellsF, rsF := fieldIndex(tabT, "Rows"), fieldIndex(rowT, "Cells"), fieldIndex(cellT, "RowSpan")
+	// the compositions of widths 1..4 with parts 1..3
+	var comps [][]int
+	var gen func(prefix []int, left int)
+	gen = func(prefix []int, left int) {
+		if left == 0 {
+			comps = append(comps, append([]int(nil), prefix...))
+			return
+		}
+		for s := 1; s <= 3 && s <= left; s++ {
+			gen(append(prefix, s), left-s)
+		}
+	}
+	type cellSpec struct {
+		start, span int
+		cont        bool
+	}
+	cases, bad := 0, ""
+	run := func(rows [][]cellSpec) bool {
+		table := eng.ZeroOf(tabT).(*eng.EStruct)
+		var rowVals []any
+		for _, r := range rows {
+			row := eng.ZeroOf(rowT).(*eng.EStruct)
+			var cells []any
+			for _, cs := range r {
+				cell := eng.ZeroOf(cellT).(*eng.EStruct)
+				eng.SetField(cell, cellT, "ColSpan", int64(cs.span))
+				eng.SetField(cell, cellT, "RowSpan", int64(1))
+				eng.SetField(cell, cellT, "IsMergedContinuation", cs.cont)
+				cells = append(cells, cell)
+			}
+			eng.SetField(row, rowT, "Cells", eng.SliceOf(cells...))
+			rowVals = append(rowVals, row)
+		}
+		eng.SetField(table, tabT, "Rows", eng.SliceOf(rowVals...))
+		tloc := &eng.ELoc{V: table}
+		args := make([]any, len(fn.Params))
+		for i, p := range fn.Params {
+			switch {
+			case i == tabIdx:
+				args[i] = &eng.EPtr{Get: func() any { return tloc.V }, Set: func(v any) { tloc.V = v }}
+			default:
+				if pt, ok := p.Type().Underlying().(*types.Pointer); ok {
+					loc := &eng.ELoc{V: eng.ZeroOf(pt.Elem())}
+					args[i] = &eng.EPtr{Get: func() any { return loc.V }, Set: func(v any) { loc.V = v }}
+				} else {
+					args[i] = eng.ZeroOf(p.Type())
+				}
+			}
+		}
+		describe := func() string {
+			var parts []string
+			for _, r := range rows {
+				var cs []string
+				for _, x := range r {
+					s := fmt.Sprintf("%d", x.span)
+					if x.cont {
+						s += "c"
+					}
+					cs = append(cs, s)
+				}
+				parts = append(parts, "["+strings.Join(cs, " ")+"]")
+			}
+			return "rows of column spans (c = continuation) " + strings.Join(parts, " over ")
+		}
+		_, err := eng.NewEvaluator().Call(fn, args, 0)
+		if err != nil && !err.Panic {
+			bad = "!" + err.Msg
+			return false
+		}
+		cases++
+		if err != nil {
+			bad = describe() + ": " + err.Msg
+			return false
+		}
+		tv, ok := tloc.V.(*eng.EStruct)
+		if !ok {
+			bad = "!the table is no longer a struct value"
+			return false
+		}
+		rsl, ok := tv.F[rowsF].(*eng.ESlice)
+		if !ok || len(rsl.L) != len(rows) {
+			bad = describe() + ": the number of rows changed"
+			return false
+		}
+		for ri, r := range rows {
+			rv, ok := rsl.L[ri].V.(*eng.EStruct)
+			if !ok {
+				bad = "!a row is not a struct value"
+				return false
+			}
+			csl, ok := rv.F[cellsF].(*eng.ESlice)
+			if !ok || len(csl.L) != len(r) {
+				bad = describe() + fmt.Sprintf(": the number of cells of row %d changed", ri)
+				return false
+			}
+			for ci, x := range r {
+				if x.cont {
+					continue
+				}
+				want := 1
+				for below := ri + 1; below < len(rows); below++ {
+					under := false
+					for _, y := range rows[below] {
+						if y.start == x.start && y.span == x.span && y.cont {
+							under = true
+						}
+					}
+					if !under {
+						break
+					}
+					want++
+				}
+				cv, ok := csl.L[ci].V.(*eng.EStruct)
+				if !ok {
+					bad = "!a cell is not a struct value"
+					return false
+				}
+				if g, ok := cv.F[rsF].(int64); !ok || g != int64(want) {
+					bad = describe() + fmt.Sprintf(": cell %d of row %d (grid column %d) has RowSpan %v, %d cell(s) of its column belong to it", ci, ri, x.start, cv.F[rsF], want)
+					return false
+				}
+			}
+		}
+		return true
+	}
+	stop := false
+	for width := 1; width <= 4 && !stop; width++ {
+		comps = nil
+		gen(nil, width)
+		// rows: every composition; continuation flags: every subset of the cells that lie under an equal cell
+		var build func(rows [][]cellSpec, depth int)
+		build = func(rows [][]cellSpec, depth int) {
+			if stop {
+				return
+			}
+			if len(rows) >= 2 {
+				if !run(rows) {
+					stop = true
+					return
+				}
+			}
+			if len(rows) == depth {
+				return
+			}
+			for _, comp := range comps {
+				var row []cellSpec
+				start := 0
+				var eligible []int
+				for i, s := range comp {
+					row = append(row, cellSpec{start: start, span: s})
+					if len(rows) > 0 {
+						for _, y := range rows[len(rows)-1] {
+							if y.start == start && y.span == s {
+								eligible = append(eligible, i)
+							}
+						}
+					}
+					start += s
+				}
+				for mask := 0; mask < 1<<len(eligible); mask++ {
+					r := append([]cellSpec(nil), row...)
+					for b, i := range eligible {
+						if mask&(1<<b) != 0 {
+							r[i].cont = true
+						}
+					}
+					build(append(append([][]cellSpec(nil), rows...), r), depth)
+				}
+			}
+		}
+		build(nil, 3)
+		if width == 4 && !stop {
+			// two rows of any widths up to five, ragged tables included: the same number of cells can cut the grid
+			// differently before the merged column
+			comps = nil
+			for w := 1; w <= 5; w++ {
+				gen(nil, w)
+			}
+			build(nil, 2)
+		}
+	}
+	if strings.HasPrefix(bad, "!") {
+		c.Ok(R, name, fn.Pos(), "not evaluated: "+bad[1:])
+		return
+	}
+	c.Check(bad == "", R, name+"#spec", fn.Pos(), fmt.Sprintf("%d tables evaluated, every merge start carries the rows beneath it", cases), "a vertical merge is credited to the wrong cell or not at all ("+bad+"): the table's grid is not the authored one")
+}
